@@ -1098,6 +1098,9 @@ def prepare(prog, rep, rid):
                   'never created, but stays in the order', loc=f.loc(head.ast),
                   history='order [A, B, C], A fails to initialise: B is '
                   'skipped and find_launcher raises KeyError on B')
+    else:
+        rep.ok(rid, f, 'the creation loop does not remove from the order',
+               f.loc(head.ast))
     # does find_launcher need the removal?
     fl = prog.method(RM[0], RM[1], 'find_launcher')
     needs = False
